@@ -556,6 +556,9 @@ package transport
 //@   at `context.WithCancel(c.ctx)` ghost derived = callres0
 //@   at! `c.closeOnCancel(ctx)` requires arg0 == derived
 //@   at `c.subscribe(start, &m)` requires m.t == startMessageType
+// the operation goroutine keeps reading the frame it was started from (its id, for every result, error and
+// completion): the frame handed to subscribe must be this iteration's own, not a variable the reader loop reuses
+//@   at `c.subscribe(start, &m)` requires freshPerIteration(m)
 //@   ensures calls(WithCancel) == 1
 //@ func (*wsConnection).closeOnCancel [C11,C10]
 //@   safe
